@@ -635,11 +635,15 @@ func c04StoreBacked(c *core.Ctx, impl string) {
 // than the service name, a strict prefix of it, sharing a prefix with it - reach
 // the service; each gets exactly one response and the service stays up.
 func c04WideOwnership(c *core.Ctx, name string) {
-	for _, own := range [][2][]string{{nil, {">"}}, {{">"}, {">"}}, {{name + ".>", "auth.>"}, {"*", "*.>"}}, {{name, name + ".>"}, nil}, {{name + ".m.*", name + ".zzz"}, {name + ".m.*"}}} {
+	for oi, own := range [][2][]string{{nil, {">"}}, {{">"}, {">"}}, {{name + ".>", "auth.>"}, {"*", "*.>"}}, {{name, name + ".>"}, nil}, {{name + ".m.*", name + ".zzz"}, {name + ".m.*"}}} {
 		tbl := &scriptTable{}
 		rg := newRig(name, func(s *res.Service) {
 			scriptedService(s, tbl, nil)
-			s.SetOwnedResources(own[0], own[1])
+			if oi%2 == 0 {
+				s.SetReset(own[0], own[1]) // the older name of the same setter
+			} else {
+				s.SetOwnedResources(own[0], own[1])
+			}
 		})
 		if err := rg.start(); err != nil {
 			c.Inconclusive("service failed to start: " + err.Error())
